@@ -8,5 +8,5 @@ pkg=$(sed -n 's|^// pkg: ||p' /verif/bounded/$2 | head -1)
 sc=$(mktemp -d /tmp/bndsc.XXXX)
 sed "s#/\*INPUTS\*/#\`{}\`#" /verif/bounded/$2 > $sc/t_test.go
 echo "{\"Replace\": {\"$wt/$pkg/zz_govc_bounded_test.go\": \"$sc/t_test.go\"}}" > $sc/ov.json
-(cd $wt && go test -v -overlay $sc/ov.json -vet=off -timeout 600s -run TestGovcBounded ./$pkg/ 2>&1 | grep -v "^I0\|^W0\|^E0" | head -${3:-40})
+(cd $wt && go test -v -overlay $sc/ov.json -vet=off -timeout 600s -run "^(TestGovcBounded|TestGovcReplay)$" ./$pkg/ 2>&1 | grep -v "^I0\|^W0\|^E0" | head -${3:-40})
 git -C /repo worktree remove --force $wt; rm -rf $sc $wt
